@@ -258,6 +258,15 @@ CLAIMS = {
              'collection batch loading disabled; batch loading from the first access) x 5 loading strategies (plain access, prefetch() of every relation and lazy attribute, objects first '
              'seen as unloaded references, everything loaded by one big query first, reverse access order): every run observes exactly what the baseline run observes.',
         note='A relation between whole runs: no single-call contract expresses it; this is a differential check on one model and data set. The oracle is the baseline run.'),
+    'C09': dict(
+        category='other',
+        text='BOUNDED stand-in (never counted as proved): histories of several sessions (creates, scalar updates incl. None, deletes, re-pointing of references in both directions, self '
+             'one-to-many from either side, many-to-many link / unlink / whole-collection assignment, symmetric many-to-many, flushes, commit(), rollback(), session end, failing sessions) '
+             'run on real SQLite and on a reference model: after every commit the database holds exactly the objects, values and links of the model, after a rollback / failing session / '
+             'failing flush nothing since the last commit is visible; symmetric links stored both ways; no dangling reference. Exhaustive histories of <= 2 operations x ways of ending the '
+             'session; 1000 (thorough: 150000) random histories of <= 10 steps generated from VERIF_SEED.',
+        note='A relation between the database and a reference model over whole histories: no single-call contract expresses it; this is model-based exploration of the write path used as a '
+             'bounded stand-in. The reference model (70 lines) is trusted.'),
 }
 
 _NOT_BUILT = 'within reach of the technique per DESIGN.md, check not built yet'
